@@ -367,7 +367,11 @@ def _check_special(case):
     # characters that str.splitlines() takes for line ends but Python's tokenizer and the line bookkeeping do not
     odd = (pad + 'def ff():\n    """\n    Summary.\n\n    A line separator \u2028 inside, and a next-line \x85 character.\n\n    Then ' + link('missing_after_breaks')
            + ' here.\n\n    ' + unk.replace('nosuchfield', 'otherfield') + '\n    """\n')
+    # reStructuredText directives whose body is re-wrapped by pydoctor (versionadded / versionchanged / deprecated) and an admonition
+    direc = (pad + 'def changed(a):\n    """\n    Function.\n\n    .. versionchanged:: 1.2\n\n       The argument is now `missing_dir_first`,\n       on two lines.\n\n'
+             '       Second paragraph `missing_dir_second`.\n\n    .. note::\n\n       An admonition `missing_dir_note`.\n\n    .. deprecated:: 2.0\n        Use `missing_dir_dep` instead.\n    """\n')
     files = {'__init__.py': '', 'props.py': props, 'base.py': base, 'derived.py': derived, 'user.py': user, 'odd.py': odd,
+             **({} if ep else {'direc.py': direc}),
              'one.py': 'class Gadget:\n    "doc"\n', 'two.py': 'class Gadget:\n    "doc"\n'}
     d = tempfile.mkdtemp(prefix='c16.', dir='/var/tmp')
     try:
@@ -404,6 +408,11 @@ def _check_special(case):
             expect('missing_in_base', 'base.py', base, 'missing_in_base', 'inherited xref')
         expect('bad docstring', 'base.py', base, 'Markup problem', 'inherited markup problem')
         expect('Gadget', 'user.py', user, 'Gadget', 'ambiguous ref', first_line_of='Third paragraph')
+        if not ep:
+            expect('missing_dir_first', 'direc.py', direc, 'missing_dir_first', 'versionchanged first paragraph')
+            expect('missing_dir_second', 'direc.py', direc, 'missing_dir_second', 'versionchanged second paragraph')
+            expect('missing_dir_note', 'direc.py', direc, 'missing_dir_note', 'note')
+            expect('missing_dir_dep', 'direc.py', direc, 'missing_dir_dep', 'deprecated')
         if ep:      # (docutils counts these characters as line ends itself)
             expect('missing_after_breaks', 'odd.py', odd, 'missing_after_breaks', 'after line separator characters')
             expect('otherfield', 'odd.py', odd, 'otherfield', 'field after line separator characters')
